@@ -70,6 +70,8 @@ func checkC14(c *Ctx) {
 	c.Rule("R14.2", "representation: typed Field as is, first bare error via zap.Error, pairs via zap.Any; first-error flag only on the bare-error path", 3)
 	c.Rule("R14.3", "routing table of the sugared methods: level, slots, helper", 21)
 	c.Rule("R14.4", "message construction: Sprintln minus its last byte; template / Sprintf / Sprint", 3)
+	c.Rule("R14.5", "a bare error or an error value never vanishes: zap.Error/NamedError skip exactly the nil interface, nothing else", 2)
+	c3NilErrorR(c, "R14.5")
 
 	fn := c.Method(ZapPath, "SugaredLogger", "sweetenFields")
 	if !c.Anchor("R14.1", "zap.SugaredLogger.sweetenFields", fn != nil) {
@@ -288,7 +290,8 @@ func checkC14(c *Ctx) {
 		if cv, ok := v.(*ssa.Const); ok && cv.Value != nil && cv.Value.ExactString() == "true" {
 			atoms := AtomStrings(GuardsOfBlock(from))
 			trueEdges = append(trueEdges, strings.Join(atoms, ","))
-			if !containsS(atoms, "args["+Desc(pI)+"].(error)?#1") || !containsS(atoms, "!"+Desc(pSeen)) {
+			// (re)setting it on a later bare error changes nothing; setting it for anything else does
+			if !containsS(atoms, "args["+Desc(pI)+"].(error)?#1") {
 				okSeen = false
 			}
 			return
@@ -304,7 +307,7 @@ func checkC14(c *Ctx) {
 			visit(e, H.Preds[j], 0)
 		}
 	}
-	c.Check(okSeen && len(trueEdges) == 1, "R14.2", name, "flag-set-on-bare-error-only", fn.Pos(), "the first-error flag becomes true only on the path that appends zap.Error for a bare error (paths setting it: %v); setting it elsewhere diverts the first bare error into a 'multiple errors' entry", trueEdges)
+	c.Check(okSeen && len(trueEdges) >= 1, "R14.2", name, "flag-set-on-bare-error-only", fn.Pos(), "the first-error flag becomes true only on the path that appends zap.Error for a bare error (paths setting it: %v); setting it elsewhere diverts the first bare error into a 'multiple errors' entry", trueEdges)
 
 	c14Routing(c)
 	c14Messages(c)
@@ -377,6 +380,36 @@ func c14Messages(c *Ctx) {
 		for k, r := range Returns(ln) {
 			d := Desc(RetVals(r)[0])
 			want := "Sprintln(fmtArgs)[:(len(Sprintln(fmtArgs)) - 1)]"
+			if d != want {
+				// the same thing through a scratch buffer: Fprintln(buf, args...), ONE TrimNewline (removes exactly the
+				// final '\n' Fprintln always writes), String(); nothing else written to the buffer
+				if sc, ok := Strip(RetVals(r)[0]).(*ssa.Call); ok && IsCallTo(sc, "(*go.uber.org/zap/buffer.Buffer).String") && isFreshBuffer(Args(sc)[0]) {
+					buf := Strip(Args(sc)[0])
+					nPrint, nTrim, other := 0, 0, 0
+					var pr, tr ssa.Instruction
+					for _, cl := range Calls(ln) {
+						a := Args(cl)
+						switch {
+						case IsCallTo(cl, "fmt.Fprintln") && len(a) == 2 && Strip(a[0]) == buf && Desc(a[1]) == ln.Params[0].Name():
+							nPrint++
+							pr = cl
+						case IsCallTo(cl, "(*go.uber.org/zap/buffer.Buffer).TrimNewline") && Strip(a[0]) == buf:
+							nTrim++
+							tr = cl
+						case IsCallTo(cl, "(*go.uber.org/zap/buffer.Buffer).String", "(*go.uber.org/zap/buffer.Buffer).Free") || cl == ssa.CallInstruction(buf.(*ssa.Call)):
+						default:
+							for _, x := range a {
+								if Strip(x) == buf {
+									other++
+								}
+							}
+						}
+					}
+					if nPrint == 1 && nTrim == 1 && other == 0 && Dominates(pr, tr) && Dominates(tr, sc) {
+						d = want
+					}
+				}
+			}
 			c.Check(d == want, "R14.4", ln.String(), "sprintln-minus-last-byte#"+itoa(k+1), r.Pos(), "the println-style message is fmt.Sprintln(args...) without exactly its final byte (%s); trimming more loses newlines the user passed", d)
 		}
 	}
